@@ -167,9 +167,18 @@ def lists():
             else:
                 interp.append(rem(c, elems[x]) == c)       # list.remove raises ValueError here (a safety obligation); the spec function is totalised by identity
         interp.append(mem(c, null) == False)
+        for lst2, c2 in list(cz.items()):
+            if lst + lst2 in cz: interp.append(cat(c, c2) == cz[lst + lst2])
+        for x in range(2):
+            for pos in range(len(lst) + 1):
+                l3 = list(lst); l3.insert(pos, x)
+                if tuple(l3) in cz: interp.append(ins(c, pos, elems[x]) == cz[tuple(l3)])
     base = [c for lst, c in cz.items() if len(lst) <= 3 and all((lst + (x,)) in cz for x in range(2))]
     dom = {str(LT.z): [cz[l_] for l_ in pyl], str(T.z): elems, 'Int': [IntVal(k) for k in range(-1, 5)]}
-    return check('LIST_AX', LIST_AX, interp, dom)
+    n = check('LIST_AX', LIST_AX, interp, dom)
+    small = {str(LT.z): [cz[l_] for l_ in pyl if len(l_) <= 2], str(T.z): elems, 'Int': [IntVal(k) for k in range(0, 4)]}
+    tiny = {str(LT.z): [cz[l_] for l_ in pyl if len(l_) <= 1], str(T.z): elems, 'Int': [IntVal(k) for k in range(0, 3)]}
+    return n + check('LIST_INS_AX', LIST_INS_AX, interp, small) + check('LIST_CAT_AX', LIST_CAT_AX, interp, tiny)
 
 
 if __name__ == '__main__':
